@@ -102,7 +102,7 @@ SV(t) == [t |-> t, p |-> 0, e |-> "-", nb |-> "-"]
 SeqPlain(k) ==
   {"GOOD", "TUPLE", "LENM1", "LENP1", "EMPTY", "STR", "NONE", "SCALAR", "GEN", "ITER", "SET", "CARR_SAME", "CARR_LEN"}
   \cup (IF k \in FloatKinds THEN {"GOOD_NAN"} ELSE {})
-  \cup (IF k \in IntKinds THEN {"RANGE", "BYTES"} ELSE {})
+  \cup (IF k \in IntKinds THEN {"RANGE", "BYTES", "CARR_WRAP"} ELSE {})       \* CARR_WRAP: ctypes array of the other signedness holding a value outside the field's range
   \cup (IF k = "Byte" THEN {"BYTES_OK", "BARR_OK", "ALL00", "ALLFF", "BYTES_LENM1", "BYTES_LENP1"} ELSE {})
   \cup (IF k = "Struct" THEN {"CARR_OTHER"} ELSE {})
 
@@ -120,6 +120,7 @@ AcceptSeq(k, L, v) ==
     [] v.t = "BADAT" -> "reject"                      \* wherever it occurs, whatever surrounds it
     [] v.t = "OPENAT" -> "open"
     [] v.t \in {"LENP1", "BYTES_LENP1", "CARR_LEN"} -> "reject"                   \* wrong-length sequences
+    [] v.t = "CARR_WRAP" -> IF L = 0 THEN "open" ELSE "reject"                     \* an out-of-range value, whatever carries it
     [] v.t \in {"LENM1", "BYTES_LENM1", "EMPTY"} -> IF L = 0 THEN "open" ELSE "reject"
     [] v.t \in {"STR", "NONE", "SCALAR"} -> "reject"                               \* not a sequence of elements
     [] v.t = "CARR_OTHER" -> "reject"                                              \* wrong struct type
